@@ -12,6 +12,7 @@ import random
 
 from .. import gen, simrun, canon, build
 from ..kernel import SimBudgetExceeded
+from . import c06 as _c06
 
 PROP = 'C20'
 LEVEL = 'exploration'
@@ -61,7 +62,12 @@ def _plant_nested(ctx, rng, spec, depth):
     p = ['probe', ctx.new_pid(), 'nested', d]
     r = rng.random()
     if r < 0.35:
-        wrapped = ['Coalesce', [p], {'default': 'outer-caught'}]
+        if rng.random() < 0.45:
+            # no default: when the inner call fails every branch fails and the OUTER call raises a
+            # CoalesceError whose trace has to render the inner error
+            wrapped = ['Coalesce', [p] + ([gen.failing(ctx, None)] if rng.random() < 0.6 else []), {}]
+        else:
+            wrapped = ['Coalesce', [p], {'default': 'outer-caught'}]
         if rng.random() < 0.5:
             wrapped[2]['skip_exc'] = ['Exception']
     elif r < 0.5:
@@ -115,7 +121,27 @@ def gen_case(seed, tier):
         for t in tasks:
             if t['target'] == tasks[0]['target'] or rng.random() < 0.3:
                 t['target'] = {'t': 'sharedtarget', 'i': 0}
-    return {'prop': PROP, 'seed': seed, 'knobs': knobs, 'shared': shared,
+    # registries: some tasks go through Glommers that carry their own registrations
+    glommers = []
+    default_regs = []
+    if rng.random() < 0.35:
+        def some_regs():
+            out = []
+            for _ in range(rng.randint(1, 3)):
+                op = rng.choice(list(_c06.REG_HANDLERS))
+                out.append({'type': rng.choice(_c06.REG_TYPES), 'op': op, 'h': rng.choice(_c06.REG_HANDLERS[op]),
+                            'exact': rng.random() < 0.3})
+            return out
+        for _ in range(rng.randint(1, 2)):
+            glommers.append({'defaults': rng.random() < 0.85, 'regs': some_regs()})
+        if rng.random() < 0.4:
+            default_regs = some_regs()
+        for t in tasks:
+            if rng.random() < 0.6:
+                t['via'] = rng.randrange(len(glommers))
+                t['kw'].pop('scope', None)
+    return {'prop': PROP, 'seed': seed, 'knobs': knobs, 'shared': shared, 'glommers': glommers,
+            'default_regs': default_regs,
             'shared_targets': shared_targets, 'tasks': tasks, 'faults': {}, 'switches': {},
             'exc_pool': rng.sample(['ValueError', 'KeyError', 'TypeError', 'AttributeError',
                                     'UserErr', 'UGlomErr', 'RuntimeError', 'IndexError',
@@ -131,9 +157,17 @@ def _resolve_target(case, t):
 class _World:
     """one private instance + kernel + builder with the case's objects"""
 
-    def __init__(self, case, gen_rng=None, only_task=None, counts_init=None):
+    def __init__(self, case, gen_rng=None, only_task=None, counts_init=None, eager_render=True):
         kn = case['knobs']
         self.G = simrun.make_instance(kn)
+        for reg in case.get('default_regs') or []:
+            _c06.apply_reg(self.G, reg)
+        self.glommers = []
+        for gd in case.get('glommers') or []:
+            gl = self.G.Glommer(register_default_types=gd['defaults'])
+            for reg in gd['regs']:
+                _c06.apply_reg(gl, reg)
+            self.glommers.append(gl)
         fault_gen = None
         if gen_rng is not None and kn.get('fault_rate'):
             rate, pool = kn['fault_rate'], case['exc_pool']
@@ -151,7 +185,8 @@ class _World:
         if line_mode and gen_rng is None and only_task is None:
             self.k.enable_line_mode()
         self.nested_log = []
-        self.B = build.Builder(self.G, self.k, shared=case.get('shared'), on_nested=self._on_nested)
+        self.B = build.Builder(self.G, self.k, shared=case.get('shared'), on_nested=self._on_nested,
+                               eager_render=eager_render)
         self.shared_targets = {}
         self.case = case
 
@@ -163,16 +198,19 @@ class _World:
         case = self.case
         call = dict(case['tasks'][i])
         how, t = _resolve_target(case, call['target'])
+        via = call.get('via')
+        glom_fn = self.G.glom if via is None or via >= len(self.glommers) else self.glommers[via].glom
         if how == 'shared':
             if t not in self.shared_targets:
                 self.shared_targets[t] = self.B.value(case['shared_targets'][t])
             target = self.shared_targets[t]
             call = dict(call, target=0)
             th, _, spec, kw = simrun.call_thunk(self.G, self.B, call)
-            G = self.G
-            return lambda: simrun.consume(G.glom(target, spec, **kw))
-        th, target, spec, kw = simrun.call_thunk(self.G, self.B, call)
-        return lambda: simrun.consume(th())
+        else:
+            th, target, spec, kw = simrun.call_thunk(self.G, self.B, call)
+        if via is not None:
+            kw.pop('scope', None)
+        return lambda: simrun.consume(glom_fn(target, spec, **kw))
 
 
 def _task_view(world, i, res):
@@ -218,6 +256,20 @@ def run_case(case, gen_rng=None):
             viols.append({'clause': 'isolated-equivalence', 'sig': 'isolated-equivalence/events',
                           'expected': a[j:j + 3], 'observed': b[j:j + 3], 'task': i,
                           'digest': digest})
+    # ---- rendering order: an inner error may be rendered (str()) right when it is caught, or only later
+    # while the OUTER error is being rendered; the outer call's outcome must not depend on that
+    for i in range(n):
+        if not _has_raising_nested(case['tasks'][i], case):
+            continue
+        Wl = _World(case, only_task=i, eager_render=False)
+        res = Wl.k.run_single(Wl.thunk_for(i), task_id=i)
+        lazy = canon.outcome(res, Wl.B.idmap)
+        stats['lazy_render_runs'] = stats.get('lazy_render_runs', 0) + 1
+        We = _World(case, only_task=i)
+        eager = canon.outcome(We.k.run_single(We.thunk_for(i), task_id=i), We.B.idmap)
+        if lazy != eager:
+            viols.append({'clause': 'reentrant-rendering', 'sig': 'reentrant-rendering/outer-trace-depends-on-when-inner-error-is-rendered',
+                          'expected': eager, 'observed': lazy, 'task': i, 'digest': digest})
     # ---- nested calls: the inner recipe alone at top level
     checked = 0
     for e in W.k.log:
@@ -252,6 +304,12 @@ def run_case(case, gen_rng=None):
         stats['reach.nested_depth3'] = 1
     return {'violations': viols, 'digest': digest, 'stats': stats, 'shape': shape,
             'nontrivial': nontrivial, 'events': len(W.k.log), 'lines': W.k.ln}
+
+
+def _has_raising_nested(task, case):
+    cache = {}
+    _walk_nested([task, case['shared'] if task['spec'] == ['shared', 0] or 'shared' in str(task['spec']) else []], cache)
+    return any(d.get('handle', 'raise') == 'raise' for d in cache.values())
 
 
 def _walk_nested(node, out):
